@@ -533,6 +533,8 @@ def register(M):
             if code == 'f8':
                 if d == NONE_EL:
                     d = X.NAN
+                elif src in ('m8', 'M8') and d == X.NAN:
+                    d = X.num(INT64_MIN)      # library fact: NaT is the integer INT64_MIN; cast to float it is -9.223372036854775808e18
                 elif src == 'm8':
                     # value expressed in the unit of the timedelta dtype (data are kept in seconds)
                     if sunit not in UNIT_SECONDS:
@@ -548,7 +550,9 @@ def register(M):
                 d = num_of_el(d) if d != NONE_EL else d
                 if d == NONE_EL:
                     raise AbsRaise(ExcVal('TypeError', ('int() argument must be a number, not NoneType',)), node)
-                if src == 'm8':
+                if src in ('m8', 'M8') and d == X.NAN:
+                    d = X.num(INT64_MIN)
+                elif src == 'm8':
                     d = X.scale(d, Fr(1) / UNIT_SECONDS[sunit])
                 d = trunc_expr(d, src)
                 if code == 'u1' and X.is_num(d):
@@ -638,6 +642,12 @@ def register(M):
                 same = code == src.dtype and (code not in ('M8', 'm8') or unit == src.unit)
             if same and (src.kind == 'nd' or getattr(node, 'func', None) is not None and getattr(node.func, 'attr', '') == 'asanyarray'):
                 return src
+            if same and src.kind == 'ma':
+                # library fact: np.asarray(masked_array) is a plain-ndarray *view* of its data buffer (no copy, the mask is left behind)
+                interp.event('mask-dropped', node=node, any_masked=any(m is not False for m in src.masks()))
+                out = Vec(src.back, list(src.idx), 'nd', src.dtype, src.unit)
+                out.ro = getattr(src, 'ro', False)
+                return out
         out = _np_array(interp, args, kw, node)
         if isinstance(src, Vec) and src.kind == 'series' and dt is None and isinstance(out, Vec):
             out.ro = PANDAS_COW      # np.asarray(Series) is Series.to_numpy(): read-only under Copy-on-Write (an Index converts to a fresh array)
@@ -687,6 +697,11 @@ def register(M):
             out.append(El(e.d, m_or(e.m, bad)))
         res = Vec.fresh(out, kind='ma', dtype=v.dtype, unit=v.unit)
         res.tz = v.tz
+        copy = kw.get('copy', args[1] if len(args) > 1 else True)
+        if copy is False and isinstance(args[0], Vec) and args[0].kind in ('nd', 'ma'):
+            # copy=False: the masked array wraps the caller's data buffer - a store into it is a store into the argument
+            res.back.owner = args[0].back.owner
+            res.ro = getattr(args[0], 'ro', False)
         return res
 
     def alloc(interp, shape, value, dtype, kind, node):
@@ -797,6 +812,9 @@ def register(M):
                         kind='ma', dtype=base.dtype, unit=base.unit)
         if 'fill_value' in kw:
             out._fill = kw['fill_value'] if not isinstance(kw['fill_value'], Sc) else kw['fill_value'].value()
+        if isinstance(data, Vec) and data.kind in ('nd', 'ma') and kw.get('copy', False) is not True and kw.get('dtype') is None:
+            out.back.owner = data.back.owner      # default copy=False: the data buffer is the argument's
+            out.ro = getattr(data, 'ro', False)
         return out
 
     # ---------------------------------------------------------------------------------------
@@ -1431,12 +1449,19 @@ def register(M):
     models_pd.register(M, dict(ext=ext, meth=meth, kwarg=kwarg, as_vec=as_vec, astype=astype, to_array=to_array))
 
 
+INT64_MIN = -2 ** 63
+
+
 def trunc_expr(d, src):
     """integer conversion of an element expression (pushed into the leaves of ite trees)"""
     if X.is_num(d):
+        if not (-2 ** 63 <= d[1] < 2 ** 63):
+            return X.num(INT64_MIN)
         return X.num(trunc_fr(d[1]))
-    if d == X.NAN:
-        return X.ANY
+    if d == X.NAN or (d[0] == 'fn' and d[1] == 'inf'):
+        # platform fact (x86-64 numpy, the pinned environment): a float that has no int64 value - NaN, +-inf, out of range - casts to
+        # INT64_MIN.  numpy documents the result as undefined; the analysis follows what the analysed environment does.
+        return X.num(INT64_MIN)
     if d == X.ANY:
         return d
     if d[0] == 'ite':
